@@ -210,7 +210,7 @@ def main(argv=None):
             for tw in c.get("twins", []):
                 # twins run on the first cube only and without known-finding excludes
                 tw_pre = [c.get("twin_cube", cubes[0])]
-                if tw.startswith("mutant:") and "@" in tw:
+                if "@" in tw:
                     tw, cube_override = tw.split("@", 1)
                     tw_pre = [cube_override]
                 jobs.append((c["fn"], tw_pre, tw, min(tmo, 120)))
